@@ -705,10 +705,17 @@ impl PubKeyInner {
 
         match self.version {
             KeyVersion::V2 | KeyVersion::V3 => {
-                let mut v: Vec<u8> = Vec::new();
-                self.public_params.to_writer(&mut v)?;
-
-                hasher.update(&v);
+                // MD5 over the bodies of the MPIs (without their length prefixes)
+                if let PublicParams::RSA(params) = &self.public_params {
+                    let n: Mpi = params.key.n().into();
+                    let e: Mpi = params.key.e().into();
+                    hasher.update(n.as_ref());
+                    hasher.update(e.as_ref());
+                } else {
+                    let mut v: Vec<u8> = Vec::new();
+                    self.public_params.to_writer(&mut v)?;
+                    hasher.update(&v);
+                }
 
                 Ok(hasher.finalize())
             }
